@@ -6,7 +6,7 @@ from vlib.run import corr, do, impl
 from props.C03 import all_maps_1q
 
 RULE = ('pairs/triples of valid maps: all 24x24 one-qubit pairs (exhaustive), random valid maps N<=6 with random signs; z2inv on all 2x2 and 3x3 '
-        'binary matrices (exhaustive, singular ones included) and random larger ones; both backends. Non-trivial = neither map is the identity; '
+        'binary matrices (exhaustive, singular ones included) and random larger ones; both backends; histories of 4-14 steps on ONE reused map object (inverse/compose queries between in-place rotations, sign-only changes, transforms, copies), each query compared with the same query on a fresh equal map. Non-trivial = neither map is the identity; '
         'distinct by (backend,check,input).')
 ASSUMES = ['maps are valid; bits 0/1']
 
@@ -68,8 +68,61 @@ def c_z2inv_oracle(ctx, args):
     return None
 
 
+def c_map_history(ctx, args):
+    """one long-lived CliffordMap object: queries (inverse, compose) interleaved with in-place updates (rotations, sign-only changes,
+    transforms, copies).  Oracle, independent of the model: every query on the reused object equals the same query on a FRESHLY built equal map,
+    and inverse is two-sided for the map as it is now.  The steps are derived from the seed, so a replay reproduces the history."""
+    be, n, seed, steps = args
+    rng = __import__('random').Random(seed)
+    M = impl(be)
+    I = M.OPS
+    m = M.CM(gen.rmap(rng, ctx.model, n))
+    ident = I['identity_map'](n)
+    hist = []
+    for _ in range(steps):
+        # two mixes: general, and 'query - sign-only update - query' (the strings, hence any string-keyed cache, stay the same)
+        op = rng.choice(['inverse', 'inverse', 'compose', 'rotate', 'rotate2', 'signflip', 'transform', 'copy', 'setps'] if seed % 2 else
+                        ['inverse', 'inverse', 'compose', 'rotate2', 'signflip', 'setps'])
+        hist.append(op)
+        cur = M.oPL(m)
+        if op == 'inverse':
+            got = M.oPL(m.inverse())
+            want = I['inverse'](cur)
+            if got != want:
+                return {'kind': 'oracle', 'where': be + ':inverse on a reused map object differs from inverse of an equal fresh map', 'observed': got, 'expected': want, 'history': hist, 'map': cur, 'tags': ['history']}
+            if I['compose'](cur, got) != ident or I['compose'](got, cur) != ident:
+                return {'kind': 'oracle', 'where': be + ':inverse (after history) is not two-sided', 'observed': got, 'expected': 'compose with the map = identity', 'history': hist, 'map': cur, 'tags': ['history']}
+        elif op == 'compose':
+            b = gen.rmap(rng, ctx.model, n)
+            got = M.oPL(m.compose(M.CM(b)))
+            want = I['compose'](cur, b)
+            if got != want:
+                return {'kind': 'oracle', 'where': be + ':compose on a reused map object differs from compose of an equal fresh map', 'observed': got, 'expected': want, 'history': hist, 'map': cur, 'tags': ['history']}
+        elif op in ('rotate', 'rotate2'):
+            g = M.P(gen.rpauli(rng, n, herm=True))
+            m.rotate_by(g)
+            if op == 'rotate2':
+                m.rotate_by(g)           # two quarter turns: strings restored, signs changed
+        elif op == 'signflip':
+            q = rng.randrange(n)
+            z = [0] * (2 * n)
+            z[2 * q + rng.randint(0, 1)] = 1
+            if rng.random() < 0.5:
+                z[2 * q], z[2 * q + 1] = 1, 1
+            m.rotate_by(M.P([z, 0]))
+            m.rotate_by(M.P([z, 0]))
+        elif op == 'transform':
+            m.transform_by(M.CM(gen.rmap(rng, ctx.model, n)))
+        elif op == 'copy':
+            m = m.copy()
+        elif op == 'setps':
+            j = rng.randrange(2 * n)
+            m.ps[j] = (int(m.ps[j]) + 2) % 4
+    return None
+
+
 CHECKS = {'compose_corr': c_compose_corr, 'inverse_corr': c_inverse_corr, 'z2inv_corr': c_z2inv_corr, 'group_laws': c_group_laws,
-          'z2inv_oracle': c_z2inv_oracle}
+          'z2inv_oracle': c_z2inv_oracle, 'map_history': c_map_history}
 
 
 def run(ctx):
@@ -105,3 +158,7 @@ def run(ctx):
         do(ctx, 'inverse_corr', [be, a], nontrivial=(be, 'i', str(a)))
         do(ctx, 'group_laws', [be, a, b, c, gen.rplist(rng, N, 3)])
         ctx.res.count('N%d' % N)
+    # histories on one reused object (lazily cached results must follow in-place updates)
+    for _ in range(int(60 * B)):
+        be = rng.choice(['np', 'np', 'torch'])
+        do(ctx, 'map_history', [be, rng.randint(1, 4), rng.randrange(10 ** 6), rng.randint(4, 14)], nontrivial=(be, 'h', ctx.res.evaluations))
